@@ -66,9 +66,21 @@ func rulesRangeCode(p *Prog, r *Report) {
 	glr := p.Func(p.ExpPkg, "getLicenseRange")
 	simp := p.Func(p.ExpPkg, "simplifyLicense")
 	same := p.Func(p.ExpPkg, "sameLicenseGroup")
-	if !lk.ok || glr == nil || simp == nil || same == nil {
-		r.Unknown("T5", "anchor", "-", "unresolved anchor: getLicenseRange / simplifyLicense / sameLicenseGroup / location key constants")
+	if !lk.ok || glr == nil {
+		r.Unknown("T5", "anchor", "-", "unresolved anchor: getLicenseRange / location key constants")
 		return
+	}
+	if same == nil {
+		// the family gate as a method or under another name: the bool function over two ranges
+		lrT := glr.Signature.Results().At(0).Type()
+		for _, f := range p.RList {
+			if f.Signature.Results().Len() != 1 || !isBoolType(f.Signature.Results().At(0).Type()) || len(f.Params) != 2 {
+				continue
+			}
+			if types.Identical(f.Params[0].Type(), lrT) && types.Identical(f.Params[1].Type(), lrT) {
+				same = f
+			}
+		}
 	}
 	r.Funcs[p.shortKey(glr)] = true
 	// T5: where the three recorded positions come from, by provenance (helpers seen through): the family
@@ -87,7 +99,10 @@ func rulesRangeCode(p *Prog, r *Report) {
 				}
 			}
 		}
-		probeDesc := p.shortKey(simp) + "(param:" + glr.Params[0].Name() + ")"
+		probeDesc := "strings.TrimSuffix(param:" + glr.Params[0].Name() + ", \"-or-later\")" // the strip written in place
+		if simp != nil {
+			probeDesc = p.shortKey(simp) + "(param:" + glr.Params[0].Name() + ")"
+		}
 		if lr == "" {
 			probs = append(probs, "the search does not run over LicenseRanges()")
 		}
@@ -202,8 +217,10 @@ func rulesRangeCode(p *Prog, r *Report) {
 		}
 	}
 	// T6 / T7
-	qz := &quantizer{p: p, elemVar: map[ssa.Value]string{}, inlineAll: true}
-	{
+	qz := &quantizer{p: p, elemVar: map[ssa.Value]string{}, inlineAll: true, seeInts: true}
+	if same == nil {
+		r.OK("T6", "sameLicenseGroup", p.pos(glr.Pos()), "no separate family-gate function: the gate is judged inside each comparison below", "", false)
+	} else {
 		// sameLicenseGroup's meaning
 		f := qz.funcFormulaWith(same, 0, nil)
 		a, b := "param:"+same.Params[0].Name(), "param:"+same.Params[1].Name()
@@ -549,6 +566,9 @@ func normQF(q *qf) *qf {
 	}
 	if q.Op == "atom" {
 		a := q.Atom
+		if r, ok := cmpCompareAtom(a); ok {
+			return normQF(&qf{Op: "atom", Atom: r})
+		}
 		if strings.HasPrefix(a, "(") && strings.HasSuffix(a, ")") {
 			inner := a[1 : len(a)-1]
 			for _, op := range []string{" != ", " >= ", " <= ", " > "} {
@@ -733,4 +753,68 @@ func skipsInSearch(p *Prog, hdrs []*ssa.BasicBlock, test *ssa.BasicBlock) []stri
 		}
 	}
 	return probs
+}
+
+
+// cmpCompareAtom rewrites "(cmp.Compare[T](A, B) OP 0)" and "(0 OP cmp.Compare[T](A, B))" to "(A OP B)".
+func cmpCompareAtom(a string) (string, bool) {
+	if !strings.HasPrefix(a, "(") || !strings.HasSuffix(a, ")") || !strings.Contains(a, "cmp.Compare[") {
+		return "", false
+	}
+	inner := a[1 : len(a)-1]
+	for _, op := range []string{" == ", " != ", " >= ", " <= ", " > ", " < "} {
+		depth := 0
+		for i := 0; i+len(op) <= len(inner); i++ {
+			switch inner[i] {
+			case '(', '{', '[':
+				depth++
+			case ')', '}', ']':
+				depth--
+			}
+			if depth != 0 || inner[i:i+len(op)] != op {
+				continue
+			}
+			l, r := inner[:i], inner[i+len(op):]
+			o := strings.TrimSpace(op)
+			call := ""
+			switch {
+			case r == "0" && strings.HasPrefix(l, "cmp.Compare["):
+				call = l
+			case l == "0" && strings.HasPrefix(r, "cmp.Compare["):
+				call = r
+				switch o {
+				case "<":
+					o = ">"
+				case ">":
+					o = "<"
+				case "<=":
+					o = ">="
+				case ">=":
+					o = "<="
+				}
+			default:
+				return "", false
+			}
+			open := strings.Index(call, "](")
+			if open < 0 || !strings.HasSuffix(call, ")") {
+				return "", false
+			}
+			args := call[open+2 : len(call)-1]
+			d2 := 0
+			for j := 0; j < len(args); j++ {
+				switch args[j] {
+				case '(', '{', '[':
+					d2++
+				case ')', '}', ']':
+					d2--
+				case ',':
+					if d2 == 0 {
+						return "(" + strings.TrimSpace(args[:j]) + " " + o + " " + strings.TrimSpace(args[j+1:]) + ")", true
+					}
+				}
+			}
+			return "", false
+		}
+	}
+	return "", false
 }
